@@ -65,11 +65,12 @@ static void c10_case(struct enc* e, uint64_t v) {
   unsigned char* ex = vh_exact_rot(r <= 16 ? r : 0, &exblk); /* start address rotates through all alignments */
   memcpy(ex, buf, r <= 16 ? r : 0);
   vh_ev_clear();
-  struct cbor_decoder_result d = cbor_stream_decode(ex, r, &vh_recording_callbacks, NULL);
+  struct cbor_decoder_result d = cbor_stream_decode(ex, r, &vh_recording_callbacks, VH_CTX);
   vh_kstr("st", d.status == CBOR_DECODER_FINISHED ? "fin" : d.status == CBOR_DECODER_NEDATA ? "nedata" : "error");
   vh_kint("read", (long long)d.read);
   vh_ku64("req", d.required);
   vh_kint("calls", vh_ev.calls);
+  vh_kbool("ctx", !vh_ev.ctx_bad);
   vh_kstr("slot", vh_ev.slot);
   vh_kbytes("arg", vh_ev.arg, vh_ev.arglen);
   fputs("}\n", vh_out);
